@@ -107,6 +107,10 @@ TABLE = {
         ("unique-other-keys", DF, "        stat = data.unique(*group_colnames).select(\"_index_\", *group_colnames)", "        stat = data.unique(group_colnames[0]).select(\"_index_\", *group_colnames)", V, "IDX-2"),
     ],
     "C05": [
+        ("join-ids-zip-consumed-once-silent", DF, "        self_ids = zip(*[self[x] for x in by1])\n        src = map(lambda x: other_by_id.get(x, -1), self_ids)",
+         "        self_ids = zip(*(self[x] for x in by1))\n        src = (other_by_id.get(x, -1) for x in self_ids)", S, None),
+        ("join-ids-zip-consumed-twice", DF, "        self_ids = zip(*[self[x] for x in by1])\n        src = map(lambda x: other_by_id.get(x, -1), self_ids)",
+         "        self_ids = zip(*[self[x] for x in by1])\n        nself = sum(1 for _ in self_ids)\n        src = map(lambda x: other_by_id.get(x, -1), self_ids)", V, "TRAP-iter"),
         ("full_join-by-not-reversed", DF, "        ba = b.left_join(a, *by_reverse)", "        ba = b.left_join(a, *by)", V, "SIB-6"),
         ("inner-right-rows-by-found", DF, "            yield colname, column[src[found]].copy()", "            yield colname, column[found].copy()", V, "IDX"),
         ("na-dtype-from-plain-dtype", DF, "            value = column.na_value\n            dtype = column.na_dtype\n            new = Vector", "            value = column.na_value\n            dtype = column.dtype\n            new = Vector", V, "SIB-5"),
@@ -141,6 +145,12 @@ TABLE = {
          "            f = select(f, data, x)(np.sum)\n            aggregate.default = 0\n            return f(data[x],\n                     data._group_,\n                     drop_na=(\n                         data[x].is_na().any()),", V, "SIB-7"),
     ],
     "C08": [
+        ("nth-python-kernel-exact-bounds-silent", AG, "        try:\n            yield xg[index]\n        except IndexError:\n            yield None",
+         "        yield xg[index] if -len(xg) <= index < len(xg) else None", S, None),
+        ("nth-python-kernel-abs-bounds", AG, "        try:\n            yield xg[index]\n        except IndexError:\n            yield None",
+         "        yield xg[index] if abs(index) < len(xg) else None", V, "SIB-8"),
+        ("nth-python-kernel-slice", AG, "        try:\n            yield xg[index]\n        except IndexError:\n            yield None",
+         "        yield next(iter(xg[index:]), None)", V, "SIB-8"),
         ("numba-na-test-without-timedelta (D24 reverted)", AG, "    if isinstance(x, (types.NPDatetime, types.NPTimedelta)):", "    if isinstance(x, types.NPDatetime):", V, "SIB-9"),
         ("third-optional-list-kernel", AG, "            out.append(function(xg) if len(xg) >= nrequired else default)", "            out.append(function(xg) if len(xg) >= nrequired else None)", V, "NJIT-optional"),
         ("typed-default-for-max (one finding less, none new)", AG, "                     default=None,\n                     nrequired=1)\n\n        aggregate.group_aware = True\n        return aggregate\n    x = handle_na(x, drop_na)\n    return np.amax(x)", "                     default=np.nan,\n                     nrequired=1)\n\n        aggregate.group_aware = True\n        return aggregate\n    x = handle_na(x, drop_na)\n    return np.amax(x)", S, None),
